@@ -1600,3 +1600,43 @@ PROPS["C03"] = {
                     "per-entry journal inverses and the refund arithmetic; observational equality rests on the three-way correspondence",
                     "sender / coinbase balances are not compared at the EVM level (fee bookkeeping differs by construction: C05)"],
 }
+
+
+# ------------------------------------------------------------------------------------------------ C20 genesis round trip
+def oracle_c20(run, ops, impl):
+    out = []
+    for i, (op, ob) in enumerate(zip(ops, impl)):
+        if ob.startswith("panic"):
+            out.append(V("C20:export-or-import-panics", {"line": i + 1, "op": op[:300], "obs": ob[:300]}))
+            continue
+        kv = dict(x.split("=", 1) for x in ob.split() if "=" in x)
+        for m in plist(kv.get("sections", "-")):
+            out.append(V("C20:second-export-differs:%s" % m, {"line": i + 1, "op": op[:400], "obs": ob}))
+        for q in plist(kv.get("queries", "-")):
+            out.append(V("C20:query-result-changed-by-round-trip:%s" % q, {"line": i + 1, "op": op[:400], "obs": ob}))
+        for a in plist(kv.get("after", "-")):
+            out.append(V("C20:behaviour-after-import-differs:%s" % a, {"line": i + 1, "op": op[:400], "obs": ob}))
+    return out
+
+
+PROPS["C20"] = {
+    "modules": ["NibiruProofs.C20"],
+    "prefix": "C20_",
+    "runs": [{"model": "genesis", "n_quick": 10, "n_thorough": 150, "thorough_seeds": 6, "no_model": True, "per_line": True,
+              "nontrivial": r"^sections="}],
+    "oracle": oracle_c20,
+    "fact_obligations": ["fact_C20_store_fields_classified", "fact_C20_rewards_id_expr"],
+    "rule": "each case: a fresh real app; a generated history populates every custom module (generated multi-frame contracts with "
+            "storage, some self-destructed, children with empty code, two instances of the same ERC20 bytecode with different "
+            "balances, FunTokens from coins and from an ERC20 with conversions in both directions, token-factory denoms with mints and "
+            "admin hand-over, sudoers with several contracts and a root change, inflation counters and flags, epoch advances, a fee "
+            "share for a wasm contract, oracle price history over time, feeder delegation, miss counter, pending prevote / vote, "
+            "allocated rewards); the whole application state is exported, a FRESH app is initialised from it (InitChain), exported "
+            "again; compared: every custom-module section of the two exports (epochs modulo current_epoch_start_height), bank "
+            "balances, sequences, code, storage and ERC20 balanceOf results of sampled accounts and contracts, the oracle TWAP, and "
+            "the module state after the same follow-up operations on both apps (reward allocation, denom creation); raw per-namespace "
+            "store differences are recorded as a diagnostic. non-trivial = the round trip completed",
+    "assumptions": ["the Go Init/ExportGenesis code implements the model's exportG/initG per field — tied by this differential run, not proved",
+                    "raw store differences that neither the exports, nor the queries, nor the follow-up operations can see "
+                    "(storage of code-less accounts, re-stamped creation blocks) are not violations of the property as stated"],
+}
